@@ -89,7 +89,7 @@ raise: a centre that cannot be reached, a date without Earth-orientation data un
 form the state is held in: the only cell that may be rewritten is the coordinate buffer, and its new content denotes
 the same physical state (`phys` erases form conversions: the code goes form → cartesian → form); form, frame,
 metadata, covariance cells are not written at all -/
-theorem setFrameBasic_error_atomic (h h' : Heap) (a : Nat) (fr : Fr) (env : Option Err) (e : Err) (s : SV)
+theorem setFrameBasic_error_atomic (h h' : Heap) (a : Nat) (fr : Fr) (env : Env) (e : Err) (s : SV)
     (hs : getSV h a = some s) (hr : setFrameBasic h a fr env = (h', .error e)) :
     h' = h ∨ ∃ v', h' = write h s.buf (.buf v') ∧ phys v' = phys s.val := by
   unfold setFrameBasic at hr
@@ -111,8 +111,8 @@ example : setFrameBasic [.buf (.init 0), .dict [("form", .form "keplerian"), ("f
   decide +kernel
 
 /-- a failing covariance frame change writes nothing -/
-theorem covSetFrame_error_atomic (h h' : Heap) (c : Nat) (fr : Fr) (e : Err)
-    (hr : covSetFrame h c fr = (h', .error e)) : h' = h := by
+theorem covSetFrame_error_atomic (h h' : Heap) (c : Nat) (fr : Fr) (env : Env) (e : Err)
+    (hr : covSetFrame h c fr env = (h', .error e)) : h' = h := by
   unfold covSetFrame at hr
   split at hr
   · split at hr
@@ -127,7 +127,7 @@ theorem covSetFrame_error_atomic (h h' : Heap) (c : Nat) (fr : Fr) (e : Err)
 /-- where a failing `sv.frame = name` can come from: an unknown name (nothing touched), the state-vector
 part (see `setFrameBasic_error_atomic`), or — the state vector having been changed successfully — the
 covariance that was to follow it (which is then left exactly as it was, `covSetFrame_error_atomic`) -/
-theorem setFrame_error_cases (h h' : Heap) (a : Nat) (name : String) (env : Option Err) (e : Err) (s : SV)
+theorem setFrame_error_cases (h h' : Heap) (a : Nat) (name : String) (env : Env) (e : Err) (s : SV)
     (hs : getSV h a = some s) (hr : setFrame h a name env = (h', .error e)) :
     (h' = h) ∨
     (∃ fr, resolveFrame name = some fr ∧ setFrameBasic h a fr env = (h', .error e)) ∨
@@ -151,7 +151,7 @@ theorem setFrame_error_cases (h h' : Heap) (a : Nat) (name : String) (env : Opti
         refine ⟨fr, c, hfr, ?_, hc⟩
         split at hr
         · split at hr
-          · have := covSetFrame_error_atomic _ _ _ _ _ hr
+          · have := covSetFrame_error_atomic _ _ _ _ _ _ hr
             rw [hb, this]
           · simp at hr
         · simp at hr; rw [hb, hr.1]
@@ -397,7 +397,7 @@ theorem copyFrame_separate (h : Heap) (a : Nat) (name : String) (wf : WfM h) : S
         · exact sep
         · rename_i s' hs'
           obtain ⟨hb, hd, _⟩ := copySVWith_getSV (copyRef_ok _) h h1 a n s' he hs'
-          have := setFrameTo_sep sep n s' hs' hb hd fr none
+          have := setFrameTo_sep sep n s' hs' hb hd fr noEnv
           unfold setFrameTo at this; rw [hs'] at this; exact this
     split
     · rename_i h2 e he2; rw [he2] at q; exact q
@@ -585,7 +585,7 @@ theorem getSV_write_buf (h : Heap) (a : Nat) (s : SV) (v' : Val) (hs : getSV h a
 transformation the object reads back with the form, frame and `_data` entries it had, and its values are either
 untouched or the round trip form → cartesian → form of what it held — never cartesian values under a non-cartesian
 form label (clause "a form or frame change that fails leaves the object in its previous, consistent form/frame/values") -/
-theorem setFrameBasic_error_keeps_labels (h h' : Heap) (a : Nat) (fr : Fr) (env : Option Err) (e : Err) (s : SV)
+theorem setFrameBasic_error_keeps_labels (h h' : Heap) (a : Nat) (fr : Fr) (env : Env) (e : Err) (s : SV)
     (hs : getSV h a = some s) (hne : s.buf ≠ s.data) (hr : setFrameBasic h a fr env = (h', .error e)) :
     ∃ s', getSV h' a = some s' ∧ s'.form = s.form ∧ s'.frame = s.frame ∧ s'.items = s.items ∧
       (s'.val = s.val ∨ s'.val = mkConv "cartesian" s.form (mkConv s.form "cartesian" s.val)) := by
@@ -603,7 +603,62 @@ theorem setFrameBasic_error_keeps_labels (h h' : Heap) (a : Nat) (fr : Fr) (env 
     · simp at hr; rw [← hr.1]; exact ⟨_, key _, rfl, rfl, rfl, Or.inr rfl⟩
     · simp at hr; rw [← hr.1]; exact ⟨s, hs, rfl, rfl, rfl, Or.inl rfl⟩
 
+/- FULL statement (clause "a form or frame change that fails leaves the object in its previous, consistent form/frame/values"):
+     setFrame h a name env = (h', .error e) → getSV h a = some s → ∃ s', getSV h' a = some s' ∧ s'.form = s.form ∧ s'.frame = s.frame ∧ phys s'.val = phys s.val
+   It is FALSE of the code: when the state-vector part succeeds and the covariance that has to follow raises, the state has
+   moved (counter-witness `C15W.frame_change_fails_after_state_moved`, open finding C15-frame-change-not-atomic-with-cov,
+   proposed_fixes/C15-frame-setter-atomic.diff). What holds: -/
+/-- a failing `sv.frame = name` on a state whose covariance does not have to follow (none, or expressed in another frame
+than the state): form, frame and `_data` are those before the call and the values are untouched or the round trip
+form → cartesian → form of what was held — for every environment and every form -/
+theorem setFrame_error_atomic_partial (h h' : Heap) (a : Nat) (name : String) (env : Env) (e : Err) (s : SV)
+    (hs : getSV h a = some s) (hne : s.buf ≠ s.data)
+    (hcov : ∀ c, lookup "cov" s.items = some (.addr c) → ∃ b cfr orb ofr, h[c]? = some (.cov b cfr orb ofr) ∧ cfr ≠ s.frame)
+    (hcb : ∀ c, lookup "cov" s.items = some (.addr c) → c ≠ s.buf ∧ c ≠ s.data)
+    (hr : setFrame h a name env = (h', .error e)) :
+    ∃ s', getSV h' a = some s' ∧ s'.form = s.form ∧ s'.frame = s.frame ∧ s'.items = s.items ∧ phys s'.val = phys s.val := by
+  have conv : ∀ s' : SV, (s'.val = s.val ∨ s'.val = mkConv "cartesian" s.form (mkConv s.form "cartesian" s.val)) → phys s'.val = phys s.val := by
+    intro s' hv
+    rcases hv with hv | hv
+    · rw [hv]
+    · rw [hv, phys_mkConv, phys_mkConv]
+  rcases setFrame_error_cases h h' a name env e s hs hr with h1 | ⟨fr, _, hb⟩ | ⟨fr, c, hfr, hb, hc⟩
+  · subst h1; exact ⟨s, hs, rfl, rfl, rfl, rfl⟩
+  · obtain ⟨s', hs', hf, hfr, hi, hv⟩ := setFrameBasic_error_keeps_labels h h' a fr env e s hs hne hb
+    exact ⟨s', hs', hf, hfr, hi, conv s' hv⟩
+  · -- the state-vector part succeeded: then the covariance had to follow, which the hypothesis excludes
+    exfalso
+    unfold setFrame at hr
+    rw [hfr] at hr
+    unfold setFrameTo at hr
+    rw [hs] at hr
+    simp only [hb, hc] at hr
+    -- the heap after the state-vector part still holds the covariance cell at `c`
+    obtain ⟨hcell, hbuf, hdat⟩ := getSV_cells h a s hs
+    have hbl : s.buf < h.length := (List.getElem?_eq_some_iff.mp hbuf).1
+    have hcc : h'[c]? = h[c]? := by
+      unfold setFrameBasic at hb
+      rw [hs] at hb
+      simp only at hb
+      split at hb
+      · simp at hb; rw [← hb]
+      · split at hb
+        · split at hb
+          · simp at hb
+          · simp at hb
+            rw [← hb, write_other _ _ _ _ (hcb c hc).2, write_other _ _ _ _ (hcb c hc).1]
+        · simp at hb
+        · simp at hb
+        · simp at hb
+    obtain ⟨b, cfr, orb, ofr, hcv, hne'⟩ := hcov c hc
+    rw [hcc, hcv] at hr
+    simp [hne'] at hr
+
 example : ∃ s, getSV C15Ex.h0 6 = some s ∧ s.buf ≠ s.data := ⟨_, rfl, by decide⟩
+/-- the hypotheses of `setFrame_error_atomic_partial` are satisfiable (a state without covariance) and its conclusion is not vacuous
+(the assignment does fail) -/
+example : (∃ s, getSV C15Ex.h0 6 = some s ∧ lookup "cov" s.items = none) ∧ (setFrame C15Ex.h0 6 "Hill").2 = .error .value := by
+  refine ⟨⟨_, rfl, by decide⟩, by decide +kernel⟩
 
 /-- what `as_orbit` / `as_statevector` build: coordinates of the receiver, `_data` of a copy of the receiver with the
 `propagator` entry set / removed -/
@@ -706,7 +761,7 @@ theorem as_orbit_as_statevector_id (h h1 h2 : Heap) (a p n m : Nat) (s s2 : SV) 
 /-- the in-place operations of the public API (the ones the correspondence run drives on real objects), with their arguments -/
 inductive Mut
   | setForm (name : String)
-  | setFrame (name : String) (env : Option Err)
+  | setFrame (name : String) (env : Env)
   | setAttr (name : String) (x : Nat)
   | setIdx (i x : Nat)
   | covFrame (name : String)
@@ -778,7 +833,7 @@ theorem copy_then_mutations_invisible (h h1 : Heap) (a n : Nat) (wf : WfM h) (hr
   exact ⟨this.pres, this⟩
 
 example : (copySV C15Ex.h0 6).2 = .ok 12 ∧
-    (runMuts (copySV C15Ex.h0 6).1 [(12, .addMan 5), (12, .setFrame "Hill" none), (12, .metaAppend "nested" 1), (12, .setForm "keplerian")]).take 7 = C15Ex.h0 := by
+    (runMuts (copySV C15Ex.h0 6).1 [(12, .addMan 5), (12, .setFrame "Hill" noEnv), (12, .metaAppend "nested" 1), (12, .setForm "keplerian")]).take 7 = C15Ex.h0 := by
   decide +kernel
 
 /-- the same for the objects `as_statevector` returns -/
